@@ -41,6 +41,11 @@ NEEDS = {
  "C16-m2": ("C16", "Categorical built from clamped softmax probabilities: log-probabilities more than ~16 nats below the maximum (and of masked actions) are reported as -15.94", ""),
  "C17-m1": ("C17", "train_on_policy records only terminations as done flags: time-limit truncations are no episode boundary for GAE any more", ""),
  "C17-m2": ("C17", "IPPO next_done vectorised on the wrong axis: final-step mask lands on the wrong (agent, env) columns; needs >=2 shared agents, >=2 envs and an episode ending at the last step in only some envs", ""),
+ "C13-m3": ("C13", "_poll_pipe_envs treats timeout=0 like None (falsy-zero slip): a *_wait(timeout=0) poll on a pending call blocks instead of reporting a timeout, and close(terminate=True) waits for stuck workers; needs a pending call, a slow worker and a zero timeout", "missed by the first C13 version (timeouts 0.15 s or None only); caught after adding the timeout=0 sleeper mode"),
+ "C20-m3": ("C20", "on-policy loop condition looks at pop[0] only: wrong only when members have different learn_step (heterogeneous population / after an rl_hp mutation of learn_step) and a non-head member reaches the budget first", "missed by the first C20 version in both tiers (homogeneous learn_step); caught after adding the heterogeneous-learn_step family"),
+ "C08-m3": ("C08", "TD3.soft_update rebinds target_param.data instead of copying in place: the target critics' encoders (detached views on the target actor's encoder when encoders are shared) stop following - two cooperating sites", ""),
+ "C07-m3": ("C07", "OptimizerWrapper.load_state_dict overwrites the restored param-group lr with the wrapper's lr; together with load_checkpoint building the optimizer from the receiving agent's pre-load lr the saved learning rate is lost (in-place path, differing lr)", ""),
+ "C02-m3": ("C02", "reinit_opt carries the old optimizer state over when shapes fit - which also restores the old learning rate; only after the agent has learnt at least once (learn -> clone -> lr mutation)", ""),
  "C19-m2": ("C19", "per-arm zero_grad() moved after reading the gradient: the loss gradients a preceding learn() leaves in .grad leak into arm 0's feature (learn immediately followed by get_action choosing arm 0)", "first reported as HARNESS-ERROR (the harness' in-place undo did not restore .grad, so re-execution diverged); the undo now restores .grad exactly and a diverging history is re-judged by the oracle before any harness error - now a VIOLATION"),
  "C04-m2": ("C04", "EvolvableMultiInput.get_inner_init_dict reads the constructor's configs instead of the live nested configs: after a nested extractor mutation a following add_latent_node ON THE SAME OBJECT (no clone in between) rebuilds the nested networks with their initial architecture", "missed by the first C03/C04 versions (every edge was clone-then-mutate); caught by both after adding in-place mutation pairs - which also exposed a genuine stale-bound-method defect on the unchanged tree (recorded as open finding)"),
 }
